@@ -66,6 +66,20 @@ func compress(comp string, data []byte) ([]byte, error) {
 		zw.Write(data)
 		zw.Close()
 		return buf.Bytes(), nil
+	case "gz2":
+		// a gzip FILE of two members (what `cat a.gz b.gz`, pigz -i or bgzip write): the tar stream is cut after its first
+		// 512-byte block and each part is compressed on its own
+		cut := 512
+		if len(data) < cut {
+			cut = len(data)
+		}
+		var buf bytes.Buffer
+		for _, part := range [][]byte{data[:cut], data[cut:]} {
+			zw := gzip.NewWriter(&buf)
+			zw.Write(part)
+			zw.Close()
+		}
+		return buf.Bytes(), nil
 	case "zst":
 		var buf bytes.Buffer
 		zw, err := zstd.NewWriter(&buf)
